@@ -65,7 +65,10 @@ type Scenario struct {
 	Stdout         string   `json:"stdout,omitempty"` // "" (pipe, captured) | closed | devfull
 	Stdin          string   `json:"stdin,omitempty"`  // "" (/dev/null) | closed
 	Cwd            string   `json:"cwd,omitempty"`    // "" (the world directory) | root | readonly (a directory the user cannot write; paths are absolute then)
-	Argv0          string   `json:"argv0,omitempty"`  // invoke the command through a symlink of this name
+	DstFd          string   `json:"dst_fd,omitempty"` // "" | devfd | procfd: the output is named /dev/fd/7 (/proc/self/fd/7), descriptor 7 being open on the destination file
+	Fs             string   `json:"fs,omitempty"`     // file system mounted on the output directory: "" (the scratch tmpfs) | ramfs (statfs reports no blocks at all) | tmpfs_small | tmpfs_full (no free block: real ENOSPC on write) | tmpfs_noinodes (no free inode: real ENOSPC on create)
+	fsActive       bool     // the file system of this run is really mounted (set by execute)
+	Argv0          string   `json:"argv0,omitempty"` // invoke the command through a symlink of this name
 	SrcMtime       int64    `json:"src_mtime,omitempty"`
 	Fault          *Fault   `json:"fault,omitempty"`
 }
@@ -85,6 +88,7 @@ type ScenarioOutcome struct {
 	ImageLen     int      `json:"image_len"`
 	PartialKind  string   `json:"partial_kind,omitempty"`
 	FaultFired   int      `json:"fault_fired"`
+	FsMounted    string   `json:"fs_mounted,omitempty"`
 	FaultLines   []string `json:"fault_lines,omitempty"`
 	Trace        []string `json:"trace,omitempty"` // fault-free syscall trace: "src:openat", "dst:write", ...
 	WorldChanges []string `json:"world_changes,omitempty"`
@@ -318,6 +322,8 @@ func (s *Scenario) materialise0() (src []byte, plain []byte) {
 // ---------- world ----------
 
 type worldPaths struct {
+	fsMounted      bool
+	dstFdPath      string
 	W              string
 	SrcArg, DstArg string // as passed on argv
 	LstArg         string
@@ -387,6 +393,9 @@ func (s *Scenario) buildWorld(W string, src []byte, image []byte) (*worldPaths, 
 	}
 	must(os.MkdirAll(filepath.Join(W, "in"), 0777))
 	must(os.MkdirAll(filepath.Join(W, "out"), 0777))
+	if s.Fs != "" {
+		wp.fsMounted = mountFs(s.Fs, filepath.Join(W, "out"), 2*len(image)+len(src)+(96<<10))
+	}
 	os.Chmod(W, 0777)
 	os.Chmod(filepath.Join(W, "in"), 0777)
 	os.Chmod(filepath.Join(W, "out"), 0777)
@@ -580,7 +589,25 @@ func (s *Scenario) buildWorld(W string, src []byte, image []byte) (*worldPaths, 
 			panic(modelErr("same_as_dst needs dst kind absent"))
 		}
 	}
+	if s.DstFd != "" {
+		if filepath.Dir(dstAbs) != filepath.Join(W, "out") {
+			panic(modelErr("dst_fd needs a plain destination in the output directory"))
+		}
+		wp.dstFdPath = dstAbs
+		dstArg = "/dev/fd/7"
+		if s.DstFd == "procfd" {
+			dstArg = "/proc/self/fd/7"
+		}
+	}
 	wp.DstAbs, wp.DstArg = dstAbs, dstArg
+	if wp.fsMounted {
+		switch s.Fs {
+		case "tmpfs_full":
+			fillBlocks(filepath.Join(W, "out", ".filler"))
+		case "tmpfs_noinodes":
+			fillInodes(filepath.Join(W, "out"))
+		}
+	}
 	switch s.LstKind {
 	case "ok":
 		wp.LstArg = filepath.Join(W, "out", "list.lst")
@@ -696,8 +723,89 @@ func (s *Scenario) dstCreatable() bool {
 		return false
 	case "ro_file", "ro_dir", "dir_no_search":
 		return s.Uid == 0
+	case "absent", "":
+		if s.fsActive && s.Fs == "tmpfs_noinodes" && s.DstFd == "" {
+			return false // no inode left: the file cannot be created
+		}
 	}
 	return true
+}
+
+// fsFault: the mounted file system is a fault of its own (full, or out of inodes).
+func (s *Scenario) fsFault() bool {
+	return s.fsActive && (s.Fs == "tmpfs_full" || s.Fs == "tmpfs_noinodes")
+}
+
+// mountFs mounts the requested file system on dir; false when mounting is not possible here (the
+// scenario then runs on the scratch file system and is counted as not exercised).
+func mountFs(kind, dir string, size int) bool {
+	var args []string
+	switch kind {
+	case "ramfs":
+		args = []string{"-t", "ramfs", "-o", "mode=0777", "verifsim", dir}
+	case "tmpfs_small", "tmpfs_full":
+		args = []string{"-t", "tmpfs", "-o", fmt.Sprintf("size=%d,mode=0777", size), "verifsim", dir}
+	case "tmpfs_noinodes":
+		args = []string{"-t", "tmpfs", "-o", fmt.Sprintf("size=%d,nr_inodes=8,mode=0777", size), "verifsim", dir}
+	default:
+		panic(modelErr("unknown fs " + kind))
+	}
+	pr := runProc(30*time.Second, "/", baseEnv(), append([]string{"mount"}, args...)...)
+	return pr.Exit == 0 && pr.StartErr == ""
+}
+
+func unmountFs(dir string) {
+	for i := 0; i < 3; i++ {
+		if err := syscall.Unmount(dir, syscall.MNT_DETACH); err != nil {
+			return
+		}
+	}
+}
+
+// unmountUnder detaches every mount below root (scratch directories of killed runs).
+func unmountUnder(root string) {
+	b, err := os.ReadFile("/proc/self/mounts")
+	if err != nil {
+		return
+	}
+	var pts []string
+	for _, l := range strings.Split(string(b), "\n") {
+		f := strings.Fields(l)
+		if len(f) >= 2 && strings.HasPrefix(f[1], root+"/") {
+			pts = append(pts, f[1])
+		}
+	}
+	for i := len(pts) - 1; i >= 0; i-- {
+		syscall.Unmount(pts[i], syscall.MNT_DETACH)
+	}
+}
+
+// fillBlocks writes path until the file system has no free block left.
+func fillBlocks(path string) {
+	f, err := os.OpenFile(path, os.O_WRONLY|os.O_CREATE|os.O_TRUNC, 0644)
+	if err != nil {
+		return
+	}
+	defer f.Close()
+	for _, n := range []int{4096, 512, 64, 1} {
+		buf := bytes.Repeat([]byte{0xF1}, n)
+		for i := 0; i < 1<<16; i++ {
+			if _, err := f.Write(buf); err != nil {
+				break
+			}
+		}
+	}
+}
+
+// fillInodes creates empty files in dir until no inode is left.
+func fillInodes(dir string) {
+	for i := 0; i < 4096; i++ {
+		f, err := os.OpenFile(filepath.Join(dir, fmt.Sprintf(".ino%04d", i)), os.O_WRONLY|os.O_CREATE|os.O_EXCL, 0644)
+		if err != nil {
+			return
+		}
+		f.Close()
+	}
 }
 
 // faultMakesSrcUnreadable / faultMakesDstUncreatable: an injected error that actually fired on
@@ -719,6 +827,10 @@ func (s *Scenario) expect(imageClass string, nlines int, fired int) expectation 
 	srcFault, dstFault := s.faultMakesSrcUnreadable(fired), s.faultMakesDstUncreatable(fired)
 	if s.Fault != nil && !srcFault && !dstFault {
 		e.Why = "fault plan active: only G1/G2"
+		return e
+	}
+	if s.fsActive && s.Fs == "tmpfs_full" {
+		e.Why = "no free block on the output file system: only G1/G2"
 		return e
 	}
 	if s.Stdout == "deadpipe" {
@@ -988,15 +1100,23 @@ func (c *c19Ctx) execute(s *Scenario, keepDir bool) (out *ScenarioOutcome, viol 
 			os.RemoveAll(dir)
 		}()
 	}
+	if s.Fs != "" {
+		defer unmountFs(filepath.Join(dir, "w", "out")) // registered last: runs before the directory is removed
+	}
 	os.Chmod(dir, 0777)
 	W := filepath.Join(dir, "w")
+	s.fsActive = false
 	wp, _ := s.buildWorld(W, src, image)
+	s.fsActive = wp.fsMounted
 	argv := s.argv(wp)
 	out = &ScenarioOutcome{Argv: argv, ImageClass: imageClass, ImageLen: len(image)}
 	if imageClass == "ok" {
 		out.ImageSha = shaHex(image)
 	}
 	out.setDstAbs(wp.DstAbs)
+	if s.Fs != "" {
+		out.FsMounted = fmt.Sprint(wp.fsMounted)
+	}
 	if s.DstKind != "dev_full" && s.DstKind != "dev_null" {
 		out.DstPre = describePath(wp.DstAbs)
 	} else {
@@ -1047,6 +1167,9 @@ func (c *c19Ctx) execute(s *Scenario, keepDir bool) (out *ScenarioOutcome, viol 
 		}
 		if s.Stdin == "closed" {
 			cmd = append(cmd, "/bin/sh", "-c", `exec "$@" <&-`, "sh")
+		}
+		if wp.dstFdPath != "" {
+			cmd = append(cmd, "/bin/sh", "-c", `exec 7<>"$0" && exec "$@"`, wp.dstFdPath)
 		}
 		switch s.Stdout {
 		case "closed":
@@ -1154,6 +1277,9 @@ func (c *c19Ctx) execute(s *Scenario, keepDir bool) (out *ScenarioOutcome, viol 
 			out.FaultFired = 1
 		}
 	}
+	if s.fsFault() && pr.Exit != 0 {
+		out.FaultFired = 1
+	}
 	if s.DstKind != "dev_full" && s.DstKind != "dev_null" {
 		out.DstPost = describePath(wp.DstAbs)
 	} else {
@@ -1182,9 +1308,19 @@ func (c *c19Ctx) execute(s *Scenario, keepDir bool) (out *ScenarioOutcome, viol 
 	}
 	viol = judge(s, e, out, image, imageClass)
 	// heal step: once the fault stops, the same command must succeed on the world left behind
-	if viol == nil && s.Fault != nil && s.SrcKind != "same_as_dst" && s.DstKind != "hardlink_to_src" && s.DstKind != "symlink_to_src" { // (with src == dst the first run consumed its own source)
+	if viol == nil && (s.Fault != nil || s.fsFault()) && s.SrcKind != "same_as_dst" && s.DstKind != "hardlink_to_src" && s.DstKind != "symlink_to_src" { // (with src == dst the first run consumed its own source)
 		s2 := *s
 		s2.Fault = nil
+		if s.fsFault() { // the fault stops: blocks and inodes are available again
+			s2.fsActive = false
+			if ents, err := os.ReadDir(filepath.Join(W, "out")); err == nil {
+				for _, en := range ents {
+					if en.Name() == ".filler" || strings.HasPrefix(en.Name(), ".ino") {
+						os.Remove(filepath.Join(W, "out", en.Name()))
+					}
+				}
+			}
+		}
 		e2 := s2.expect(imageClass, nlines, 0)
 		if e2.Pin == "0" {
 			pr2, _, _ := run(nil)
